@@ -17,6 +17,9 @@ pub enum Ev {
     Poll(u8),
     /// advance the mock clock by n nanoseconds
     Tick(u64),
+    /// compound step: advance the clock by n nanoseconds, then poll(channel) — lets an explorer
+    /// apply a poll right after a specific (large) clock step from every state
+    TickPoll(u64, u8),
     Reset,
 }
 
@@ -29,6 +32,7 @@ impl Ev {
             Ev::Msg(s, a, b) => format!("{:02X} {:02X} {:02X}", s, a, b),
             Ev::Poll(c) => format!("poll {}", c),
             Ev::Tick(n) => format!("tick {}", n),
+            Ev::TickPoll(n, c) => format!("tickpoll {} {}", n, c),
             Ev::Reset => "reset".to_string(),
         }
     }
@@ -38,6 +42,7 @@ impl Ev {
             ["reset"] => Some(Ev::Reset),
             ["poll", c] => c.parse().ok().map(Ev::Poll),
             ["tick", n] => n.parse().ok().map(Ev::Tick),
+            ["tickpoll", n, c] => Some(Ev::TickPoll(n.parse().ok()?, c.parse().ok()?)),
             [a, b, c] => Some(Ev::Msg(
                 u8::from_str_radix(a, 16).ok()?,
                 u8::from_str_radix(b, 16).ok()?,
@@ -59,7 +64,7 @@ impl Ev {
     pub fn channel(&self) -> Option<u8> {
         match self {
             Ev::Msg(s, _, _) if (0x80..0xF0).contains(s) => Some(s & 0x0F),
-            Ev::Poll(c) => Some(*c),
+            Ev::Poll(c) | Ev::TickPoll(_, c) => Some(*c),
             _ => None,
         }
     }
